@@ -147,6 +147,22 @@ var depImpl = map[string]core.Adapter{
 				return fmt.Sprintf("FAIL unmarshalling into a receiver that held %q gives %s, a fresh parse %s", prior, dumpDep(&g), dumpDep(d))
 			}
 		}
+		// a value copied out of a variable (`kept := dep`, `list = append(list, dep)`) stays what it
+		// was when the variable is unmarshalled into again, with a shorter, equal or longer field
+		for _, next := range []string{"other", "x | y, z", core.MustUnHex(a[0]) + ", tail-1, tail-2", "a, b, c, d, e, f, g, h"} {
+			var g dependency.Dependency
+			if g.UnmarshalControl(core.MustUnHex(a[0])) != nil {
+				break
+			}
+			kept := g
+			before := dumpDep(&kept)
+			if g.UnmarshalControl(next) != nil {
+				continue
+			}
+			if now := dumpDep(&kept); now != before {
+				return fmt.Sprintf("FAIL the copy kept of a parsed field changed when the variable was unmarshalled into again (%q): %s, was %s", next, now, before)
+			}
+		}
 		return "ok"
 	},
 	"archparse": func(a []string) string {
@@ -312,6 +328,10 @@ func wideTok(r *core.Rand, n int, alsoAllowed string) string {
 			alpha = append(alpha, c)
 		}
 	}
+	if r.Chance(1, 6) {
+		// control bytes other than the four white-space bytes of the grammar are token bytes too
+		alpha = append(alpha, 0x0b, 0x0c, 0x1f, 0x7f, 0x01, 0x08)
+	}
 	return r.Str("abcxyz0123456789", 1) + r.Str(string(alpha), n)
 }
 
@@ -364,6 +384,11 @@ func genPoss(r *core.Rand) gPoss {
 			a := r.Pick(archNames)
 			if wide && r.Chance(1, 3) {
 				a = wideTok(r, r.Intn(6), "")
+			}
+			if r.Chance(1, 25) {
+				// a full three-part name whose last part starts with an odd byte: the short form of
+				// its rendering begins with that byte
+				a = r.Pick([]string{"gnu-linux-", "any-linux-", "any-any-", "gnu-kfreebsd-"}) + r.Pick([]string{"\v", "\f", "\x7f", "\x1f", "%", "#", "\\"}) + r.Pick([]string{"amd64", "x", ""})
 			}
 			a = lit(a, 10)
 			p.Archs = append(p.Archs, a)
@@ -626,7 +651,7 @@ func streamDepparse(g *core.G) {
 	r := g.R
 	for _, s := range []string{"", "foo", "foo, bar | baz", "foo:armhf <stage1 !cross> [amd64 i386] (>= 1.2:3.4~5.6-7.8~9.0) <!stage1 cross>",
 		"foo,\nbar\n", "foo [ a  b ]", "foo <!!a>", "a, |", "caf\xc3\xa9", "foo <!>", "${misc:Depends}, foo", "foo (== 1)", "foo (>= 1", "foo [a", "foo <a",
-		"${x", "foo [a !b]", "foo [!a b]", "foo (>= 1) (<= 2)", "foo [a] [b]", "foo bar", "foo (>= 1 )", "foo(>=1)", "foo:any[amd64]", "(>= 1)", "foo <>",
+		"${x", "foo [a !b]", "foo [!a b]", "foo (>= 1) (<= 2)", "foo [a] [b]", "foo bar", "foo (>= 1 )", "foo(>=1)", "foo:any[amd64]", "(>= 1)", "foo <>", "${foo:Depends} [linux-any], bar", "${x} (>= 1)", "${x} <cross>", "${x}[a]", "${x}:any", "a | ${x} [!amd64] | b",
 		"foo [ ]", "$x", "foo\x00bar", "foo (=1)", "foo ( = 1)", "foo (<< 1)", "foo (< 1)", "foo (> 1)", "foo [!]", "foo:", "foo: [a]", "a|b", "a | | b", ",a", "a,,b"} {
 		emitDepText(g, s)
 	}
@@ -657,6 +682,12 @@ func streamDepparse(g *core.G) {
 		}
 		if r.Chance(1, 8) {
 			emitDepText(g, r.Str(depSpecial, r.Intn(12)))
+		}
+		if r.Chance(1, 12) {
+			// a substitution variable directly followed by what would restrict a package
+			sv := "${" + r.Pick([]string{"misc:Depends", "shlibs:Depends", "x"}) + "}" + r.Pick([]string{"", " ", "\t"}) +
+				r.Pick([]string{"[linux-any]", "[!amd64 !i386]", "(>= 1.0)", "<cross>", "<!nocheck> [amd64]", ":any"})
+			emitDepText(g, r.Pick([]string{"", "a, ", "a | "})+sv+r.Pick([]string{"", ", bar", " | bar"}))
 		}
 	}
 }
